@@ -1,2 +1,64 @@
--- line-protocol model driver for C07 (stub)
-def main : IO Unit := IO.println "stub C07"
+import JanetModel.Wait.Model
+import Driver.Util
+/- Line-protocol driver for the C07 wait model: folds `step` over operation lines, reports every executed task.
+   cfg <11 x 0/1> | reset | spawn f | give f c v ch | take f c ch | close c | cancel f code | sleep f us | timeout f us |
+   deadline f b us | bodystart b | bodydone b | dead f | advance dt | timers | run | chan c -/
+open JanetModel.Wait
+
+structure DS where
+  cfg : Cfg := Cfg.full
+  w : World := {}
+
+def showVal : Val → String
+  | .nil => "nil"
+  | .kw n => s!":k{n}"
+  | .chan c => s!"c{c}"
+  | .giveR c => s!"(:give,c{c})"
+  | .takeR c v => s!"(:take,c{c},:k{v})"
+  | .closeR c => s!"(:close,c{c})"
+  | .err 0 => "\"timeout\""
+  | .err 1 => "\"deadline_expired\""
+  | .err n => s!"\"e{n}\""
+  | .int n => s!"{n}"
+  | .buf n => s!"buf{n}"
+
+def b (s : String) : Bool := s == "1"
+def n (s : String) : Nat := s.toNat!
+
+def showPending (w : World) (l : List Pending) : String :=
+  ",".intercalate (l.map fun p => s!"f{p.fiber}:{p.schedId}:{if live w p.fiber p.schedId then "live" else "stale"}")
+
+def stepLine (s : DS) (toks : List String) : DS × String :=
+  let op (o : Op) : DS × String := ({ s with w := step s.cfg s.w o }, "ok")
+  match toks with
+  | ["cfg", a1, a2, a3, a4, a5, a6, a7, a8, a9, a10, a11] =>
+      ({ s with cfg := ⟨b a1, b a2, b a3, b a4, b a5, b a6, b a7, b a8, b a9, b a10, b a11⟩ }, "ok")
+  | ["reset"] => ({ s with w := {} }, "ok")
+  | ["spawn", f] => op (.spawn (n f))
+  | ["give", f, c, v, ch] => op (.give (n f) (n c) (.kw (n v)) (b ch))
+  | ["take", f, c, ch] => op (.take (n f) (n c) (b ch))
+  | ["close", c] => op (.close (n c))
+  | ["cancel", f, code] => op (.cancel (n f) (.err (n code)))
+  | ["sleep", f, us] => op (.sleep (n f) (n us))
+  | ["timeout", f, us] => op (.timeout (n f) (n us))
+  | ["deadline", f, bd, us] => op (.deadline (n f) (n bd) (n us))
+  | ["bodystart", bd] => op (.bodyStart (n bd))
+  | ["bodydone", bd] => op (.bodyDone (n bd))
+  | ["dead", f] => op (.fiberDead (n f))
+  | ["advance", dt] => op (.advance (n dt))
+  | ["timers"] => op .timers
+  | ["run"] =>
+      let w' := step s.cfg s.w .run
+      let out :=
+        if s.w.queue.isEmpty then "idle"
+        else if w'.log.length == s.w.log.length then "skip"
+        else match w'.log with
+          | e :: _ => s!"ran {e.tick} f{e.fiber} sid={e.schedIdAtRun} val={showVal e.task.value}"
+          | [] => "skip"
+      ({ s with w := w' }, out)
+  | ["chan", c] =>
+      let ch := s.w.chans (n c)
+      (s, s!"chan c{n c} items={ch.items.length} closed={if ch.closed then 1 else 0} rp=[{showPending s.w ch.rp}] wp=[{showPending s.w ch.wp}]")
+  | _ => (s, "error unknown-op")
+
+def main : IO Unit := Driver.runLoop ({} : DS) stepLine
